@@ -478,6 +478,22 @@ func (g *Gen) intBin(op string, a, b string, t types.Type, bConst *big.Int) (str
 	case "*":
 		return wrap("(* " + a + " " + b + ")")
 	case "/", "%":
+		if op == "%" && bConst == nil {
+			// remainder by a variable: uninterpreted, with ground instances of true facts about Go's % for the
+			// pair of terms at hand (sound, merely incomplete; avoids nonlinear arithmetic)
+			r := "(gomod " + a + " " + b + ")"
+			g.needGomod = true
+			key := "gomod:" + a + "%" + b
+			if !g.declared[key] {
+				g.declared[key] = true
+				pos := "(and (>= " + a + " 0) (> " + b + " 0))"
+				g.emit(evAssert, fmt.Sprintf("(assert (=> %s (and (<= 0 %s) (< %s %s))))", pos, r, r, b))
+				g.emit(evAssert, fmt.Sprintf("(assert (=> (and %s (< %s %s)) (= %s %s)))", pos, a, b, r, a))
+				g.emit(evAssert, fmt.Sprintf("(assert (=> (and %s (<= %s %s) (< %s (* 2 %s))) (= %s (- %s %s))))", pos, b, a, a, b, r, a, b))
+				g.emit(evAssert, fmt.Sprintf("(assert (=> (and %s (<= (* 2 %s) %s) (< %s (* 3 %s))) (= %s (- %s (* 2 %s)))))", pos, b, a, a, b, r, a, b))
+			}
+			return r, ""
+		}
 		// Go: truncated division. SMT div/mod: floor for positive divisor (euclidean).
 		var q string
 		if !ii.signed || (bConst != nil && bConst.Sign() > 0) {
